@@ -43,8 +43,12 @@ var defs = map[string]propDef{
 		"distinct = (n, limit, pinned count, tie-class position/size, cut-off inside tie) layout classes", runC39,
 		map[string]int64{"size_exact": 500, "tie_class_frequency": 50, "rename_keeps_stake_profile": 500}},
 	"C40": {"exploration", "real roundStartingStorage (Put/Get/Prune/FindRoundIndex/GetLatest) and real Chain.SetMagicBlock/GetMagicBlock/GetMagicBlockNoOffset/GetPrevMagicBlock/PruneRoundStorage: every insertion order of every set of <=N starting rounds " +
-		"drawn from a spaced grid, every query round in range +- the view-change offset, every prune point; oracle = reference floor lookup on a sorted slice; distinct = (start set, insertion order)", runC40,
-		map[string]int64{"storage_get_floor": 10000, "chain_get_magic_block": 10000, "prune_answers_unchanged": 10000, "chain_prune_answers_unchanged": 1000}},
+		"drawn from a spaced grid, every query round in range +- the view-change offset, every prune point; oracle = reference floor lookup on a sorted slice; " +
+		"operation sequences (every sequence of <= L Put/Prune operations over 4 starts on the storage and of SetMagicBlock/PruneRoundStorage on the chain, plus seeded longer ones: Put in any order, again for retained and for pruned starts, " +
+		"prunes of fewer than half / half or more / all but one / all entries) judged after every step against a reference model (map start -> entity, floor lookup, latest = highest stored start); " +
+		"distinct = (start set, insertion order) and sequences of operation kinds", runC40,
+		map[string]int64{"storage_get_floor": 10000, "chain_get_magic_block": 10000, "prune_answers_unchanged": 10000, "chain_prune_answers_unchanged": 1000,
+			"seq_storage_step_judged": 10000, "seq_chain_step_judged": 10000, "seq_storage_get_latest": 10000, "seq_chain_get_magic_block": 100000}},
 	"C42": {"exploration", "real Chain.IsBlockSharder/IsBlockSharderFromHash/CanShardBlockWithReplicators on sharder pools built in permuted insertion orders (nodes made by node.NewNode and by magic-block JSON decoding), " +
 		"seeded random block hashes, replicator counts {0,1,k,n,n+1}; oracle = identical responsible id sets across orders and entry points, |set| >= k when k <= n, k=0 => everyone; distinct = (n, k, |set|, construction) classes", runC42,
 		map[string]int64{"order_independent_set": 1000, "size_at_least_k": 1000, "k0_everyone": 100}},
